@@ -3,6 +3,16 @@ type nat =
 | O
 | S of nat
 
+(** val fst : ('a1 * 'a2) -> 'a1 **)
+
+let fst = function
+| (x, _) -> x
+
+(** val snd : ('a1 * 'a2) -> 'a2 **)
+
+let snd = function
+| (_, y) -> y
+
 (** val length : 'a1 list -> nat **)
 
 let rec length = function
@@ -21,13 +31,6 @@ type comparison =
 | Lt
 | Gt
 
-(** val compOpp : comparison -> comparison **)
-
-let compOpp = function
-| Eq -> Eq
-| Lt -> Gt
-| Gt -> Lt
-
 module Coq__1 = struct
  (** val add : nat -> nat -> nat **)
  let rec add n0 m =
@@ -36,50 +39,6 @@ module Coq__1 = struct
    | S p -> S (add p m)
 end
 include Coq__1
-
-(** val nth : nat -> 'a1 list -> 'a1 -> 'a1 **)
-
-let rec nth n0 l default =
-  match n0 with
-  | O -> (match l with
-          | [] -> default
-          | x :: _ -> x)
-  | S m -> (match l with
-            | [] -> default
-            | _ :: t -> nth m t default)
-
-(** val rev : 'a1 list -> 'a1 list **)
-
-let rec rev = function
-| [] -> []
-| x :: l' -> app (rev l') (x :: [])
-
-(** val map : ('a1 -> 'a2) -> 'a1 list -> 'a2 list **)
-
-let rec map f = function
-| [] -> []
-| a :: t -> (f a) :: (map f t)
-
-(** val skipn : nat -> 'a1 list -> 'a1 list **)
-
-let rec skipn n0 l =
-  match n0 with
-  | O -> l
-  | S n1 -> (match l with
-             | [] -> []
-             | _ :: l0 -> skipn n1 l0)
-
-(** val seq : nat -> nat -> nat list **)
-
-let rec seq start = function
-| O -> []
-| S len0 -> start :: (seq (S start) len0)
-
-(** val repeat : 'a1 -> nat -> 'a1 list **)
-
-let rec repeat x = function
-| O -> []
-| S k -> x :: (repeat x k)
 
 type positive =
 | XI of positive
@@ -96,6 +55,14 @@ type z =
 | Zneg of positive
 
 module Pos =
+ struct
+  type mask =
+  | IsNul
+  | IsPos of positive
+  | IsNeg
+ end
+
+module Coq_Pos =
  struct
   (** val succ : positive -> positive **)
 
@@ -150,12 +117,64 @@ module Pos =
   | XO p -> XI (pred_double p)
   | XH -> XH
 
-  (** val pred_N : positive -> n **)
+  type mask = Pos.mask =
+  | IsNul
+  | IsPos of positive
+  | IsNeg
 
-  let pred_N = function
-  | XI p -> Npos (XO p)
-  | XO p -> Npos (pred_double p)
-  | XH -> N0
+  (** val succ_double_mask : mask -> mask **)
+
+  let succ_double_mask = function
+  | IsNul -> IsPos XH
+  | IsPos p -> IsPos (XI p)
+  | IsNeg -> IsNeg
+
+  (** val double_mask : mask -> mask **)
+
+  let double_mask = function
+  | IsPos p -> IsPos (XO p)
+  | x0 -> x0
+
+  (** val double_pred_mask : positive -> mask **)
+
+  let double_pred_mask = function
+  | XI p -> IsPos (XO (XO p))
+  | XO p -> IsPos (XO (pred_double p))
+  | XH -> IsNul
+
+  (** val sub_mask : positive -> positive -> mask **)
+
+  let rec sub_mask x y =
+    match x with
+    | XI p ->
+      (match y with
+       | XI q -> double_mask (sub_mask p q)
+       | XO q -> succ_double_mask (sub_mask p q)
+       | XH -> IsPos (XO p))
+    | XO p ->
+      (match y with
+       | XI q -> succ_double_mask (sub_mask_carry p q)
+       | XO q -> double_mask (sub_mask p q)
+       | XH -> IsPos (pred_double p))
+    | XH -> (match y with
+             | XH -> IsNul
+             | _ -> IsNeg)
+
+  (** val sub_mask_carry : positive -> positive -> mask **)
+
+  and sub_mask_carry x y =
+    match x with
+    | XI p ->
+      (match y with
+       | XI q -> succ_double_mask (sub_mask_carry p q)
+       | XO q -> double_mask (sub_mask p q)
+       | XH -> IsPos (pred_double p))
+    | XO p ->
+      (match y with
+       | XI q -> double_mask (sub_mask_carry p q)
+       | XO q -> succ_double_mask (sub_mask_carry p q)
+       | XH -> double_pred_mask p)
+    | XH -> IsNeg
 
   (** val mul : positive -> positive -> positive **)
 
@@ -171,20 +190,6 @@ module Pos =
   | XI n' -> f (iter f (iter f x n') n')
   | XO n' -> iter f (iter f x n') n'
   | XH -> f x
-
-  (** val div2 : positive -> positive **)
-
-  let div2 = function
-  | XI p0 -> p0
-  | XO p0 -> p0
-  | XH -> XH
-
-  (** val div2_up : positive -> positive **)
-
-  let div2_up = function
-  | XI p0 -> succ p0
-  | XO p0 -> p0
-  | XH -> XH
 
   (** val compare_cont : comparison -> positive -> positive -> comparison **)
 
@@ -271,30 +276,18 @@ module Pos =
              | XO _ -> N0
              | _ -> Npos XH)
 
-  (** val ldiff : positive -> positive -> n **)
+  (** val shiftl : positive -> n -> positive **)
 
-  let rec ldiff p q =
-    match p with
-    | XI p0 ->
-      (match q with
-       | XI q0 -> coq_Ndouble (ldiff p0 q0)
-       | XO q0 -> coq_Nsucc_double (ldiff p0 q0)
-       | XH -> Npos (XO p0))
-    | XO p0 ->
-      (match q with
-       | XI q0 -> coq_Ndouble (ldiff p0 q0)
-       | XO q0 -> coq_Ndouble (ldiff p0 q0)
-       | XH -> Npos p)
-    | XH -> (match q with
-             | XO _ -> Npos XH
-             | _ -> N0)
+  let shiftl p = function
+  | N0 -> p
+  | Npos n1 -> iter (fun x -> XO x) p n1
 
   (** val iter_op : ('a1 -> 'a1 -> 'a1) -> positive -> 'a1 -> 'a1 **)
 
-  let rec iter_op op p a =
+  let rec iter_op op0 p a =
     match p with
-    | XI p0 -> op a (iter_op op p0 (op a a))
-    | XO p0 -> iter_op op p0 (op a a)
+    | XI p0 -> op0 a (iter_op op0 p0 (op0 a a))
+    | XO p0 -> iter_op op0 p0 (op0 a a)
     | XH -> a
 
   (** val to_nat : positive -> nat **)
@@ -311,11 +304,17 @@ module Pos =
 
 module N =
  struct
-  (** val succ_pos : n -> positive **)
+  (** val succ_double : n -> n **)
 
-  let succ_pos = function
-  | N0 -> XH
-  | Npos p -> Pos.succ p
+  let succ_double = function
+  | N0 -> Npos XH
+  | Npos p -> Npos (XI p)
+
+  (** val double : n -> n **)
+
+  let double = function
+  | N0 -> N0
+  | Npos p -> Npos (XO p)
 
   (** val add : n -> n -> n **)
 
@@ -324,7 +323,20 @@ module N =
     | N0 -> m
     | Npos p -> (match m with
                  | N0 -> n0
-                 | Npos q -> Npos (Pos.add p q))
+                 | Npos q -> Npos (Coq_Pos.add p q))
+
+  (** val sub : n -> n -> n **)
+
+  let sub n0 m =
+    match n0 with
+    | N0 -> N0
+    | Npos n' ->
+      (match m with
+       | N0 -> n0
+       | Npos m' ->
+         (match Coq_Pos.sub_mask n' m' with
+          | Coq_Pos.IsPos p -> Npos p
+          | _ -> N0))
 
   (** val mul : n -> n -> n **)
 
@@ -333,7 +345,104 @@ module N =
     | N0 -> N0
     | Npos p -> (match m with
                  | N0 -> N0
-                 | Npos q -> Npos (Pos.mul p q))
+                 | Npos q -> Npos (Coq_Pos.mul p q))
+
+  (** val compare : n -> n -> comparison **)
+
+  let compare n0 m =
+    match n0 with
+    | N0 -> (match m with
+             | N0 -> Eq
+             | Npos _ -> Lt)
+    | Npos n' -> (match m with
+                  | N0 -> Gt
+                  | Npos m' -> Coq_Pos.compare n' m')
+
+  (** val eqb : n -> n -> bool **)
+
+  let eqb n0 m =
+    match n0 with
+    | N0 -> (match m with
+             | N0 -> true
+             | Npos _ -> false)
+    | Npos p -> (match m with
+                 | N0 -> false
+                 | Npos q -> Coq_Pos.eqb p q)
+
+  (** val leb : n -> n -> bool **)
+
+  let leb x y =
+    match compare x y with
+    | Gt -> false
+    | _ -> true
+
+  (** val ltb : n -> n -> bool **)
+
+  let ltb x y =
+    match compare x y with
+    | Lt -> true
+    | _ -> false
+
+  (** val min : n -> n -> n **)
+
+  let min n0 n' =
+    match compare n0 n' with
+    | Gt -> n'
+    | _ -> n0
+
+  (** val max : n -> n -> n **)
+
+  let max n0 n' =
+    match compare n0 n' with
+    | Gt -> n0
+    | _ -> n'
+
+  (** val div2 : n -> n **)
+
+  let div2 = function
+  | N0 -> N0
+  | Npos p0 -> (match p0 with
+                | XI p -> Npos p
+                | XO p -> Npos p
+                | XH -> N0)
+
+  (** val pos_div_eucl : positive -> n -> n * n **)
+
+  let rec pos_div_eucl a b =
+    match a with
+    | XI a' ->
+      let (q, r) = pos_div_eucl a' b in
+      let r' = succ_double r in
+      if leb b r' then ((succ_double q), (sub r' b)) else ((double q), r')
+    | XO a' ->
+      let (q, r) = pos_div_eucl a' b in
+      let r' = double r in
+      if leb b r' then ((succ_double q), (sub r' b)) else ((double q), r')
+    | XH ->
+      (match b with
+       | N0 -> (N0, (Npos XH))
+       | Npos p -> (match p with
+                    | XH -> ((Npos XH), N0)
+                    | _ -> (N0, (Npos XH))))
+
+  (** val div_eucl : n -> n -> n * n **)
+
+  let div_eucl a b =
+    match a with
+    | N0 -> (N0, N0)
+    | Npos na -> (match b with
+                  | N0 -> (N0, a)
+                  | Npos _ -> pos_div_eucl na b)
+
+  (** val div : n -> n -> n **)
+
+  let div a b =
+    fst (div_eucl a b)
+
+  (** val modulo : n -> n -> n **)
+
+  let modulo a b =
+    snd (div_eucl a b)
 
   (** val coq_lor : n -> n -> n **)
 
@@ -342,89 +451,45 @@ module N =
     | N0 -> m
     | Npos p -> (match m with
                  | N0 -> n0
-                 | Npos q -> Npos (Pos.coq_lor p q))
+                 | Npos q -> Npos (Coq_Pos.coq_lor p q))
 
-  (** val ldiff : n -> n -> n **)
+  (** val coq_land : n -> n -> n **)
 
-  let ldiff n0 m =
+  let coq_land n0 m =
     match n0 with
     | N0 -> N0
     | Npos p -> (match m with
-                 | N0 -> n0
-                 | Npos q -> Pos.ldiff p q)
+                 | N0 -> N0
+                 | Npos q -> Coq_Pos.coq_land p q)
+
+  (** val shiftl : n -> n -> n **)
+
+  let shiftl a n0 =
+    match a with
+    | N0 -> N0
+    | Npos a0 -> Npos (Coq_Pos.shiftl a0 n0)
+
+  (** val shiftr : n -> n -> n **)
+
+  let shiftr a = function
+  | N0 -> a
+  | Npos p -> Coq_Pos.iter div2 a p
 
   (** val to_nat : n -> nat **)
 
   let to_nat = function
   | N0 -> O
-  | Npos p -> Pos.to_nat p
+  | Npos p -> Coq_Pos.to_nat p
 
   (** val of_nat : nat -> n **)
 
   let of_nat = function
   | O -> N0
-  | S n' -> Npos (Pos.of_succ_nat n')
+  | S n' -> Npos (Coq_Pos.of_succ_nat n')
  end
 
 module Z =
  struct
-  (** val double : z -> z **)
-
-  let double = function
-  | Z0 -> Z0
-  | Zpos p -> Zpos (XO p)
-  | Zneg p -> Zneg (XO p)
-
-  (** val succ_double : z -> z **)
-
-  let succ_double = function
-  | Z0 -> Zpos XH
-  | Zpos p -> Zpos (XI p)
-  | Zneg p -> Zneg (Pos.pred_double p)
-
-  (** val pred_double : z -> z **)
-
-  let pred_double = function
-  | Z0 -> Zneg XH
-  | Zpos p -> Zpos (Pos.pred_double p)
-  | Zneg p -> Zneg (XI p)
-
-  (** val pos_sub : positive -> positive -> z **)
-
-  let rec pos_sub x y =
-    match x with
-    | XI p ->
-      (match y with
-       | XI q -> double (pos_sub p q)
-       | XO q -> succ_double (pos_sub p q)
-       | XH -> Zpos (XO p))
-    | XO p ->
-      (match y with
-       | XI q -> pred_double (pos_sub p q)
-       | XO q -> double (pos_sub p q)
-       | XH -> Zpos (Pos.pred_double p))
-    | XH ->
-      (match y with
-       | XI q -> Zneg (XO q)
-       | XO q -> Zneg (Pos.pred_double q)
-       | XH -> Z0)
-
-  (** val add : z -> z -> z **)
-
-  let add x y =
-    match x with
-    | Z0 -> y
-    | Zpos x' ->
-      (match y with
-       | Z0 -> x
-       | Zpos y' -> Zpos (Pos.add x' y')
-       | Zneg y' -> pos_sub x' y')
-    | Zneg x' ->
-      (match y with
-       | Z0 -> x
-       | Zpos y' -> pos_sub y' x'
-       | Zneg y' -> Zneg (Pos.add x' y'))
-
   (** val opp : z -> z **)
 
   let opp = function
@@ -432,101 +497,10 @@ module Z =
   | Zpos x0 -> Zneg x0
   | Zneg x0 -> Zpos x0
 
-  (** val sub : z -> z -> z **)
-
-  let sub m n0 =
-    add m (opp n0)
-
-  (** val mul : z -> z -> z **)
-
-  let mul x y =
-    match x with
-    | Z0 -> Z0
-    | Zpos x' ->
-      (match y with
-       | Z0 -> Z0
-       | Zpos y' -> Zpos (Pos.mul x' y')
-       | Zneg y' -> Zneg (Pos.mul x' y'))
-    | Zneg x' ->
-      (match y with
-       | Z0 -> Z0
-       | Zpos y' -> Zneg (Pos.mul x' y')
-       | Zneg y' -> Zpos (Pos.mul x' y'))
-
-  (** val pow_pos : z -> positive -> z **)
-
-  let pow_pos z0 =
-    Pos.iter (mul z0) (Zpos XH)
-
-  (** val pow : z -> z -> z **)
-
-  let pow x = function
-  | Z0 -> Zpos XH
-  | Zpos p -> pow_pos x p
-  | Zneg _ -> Z0
-
-  (** val compare : z -> z -> comparison **)
-
-  let compare x y =
-    match x with
-    | Z0 -> (match y with
-             | Z0 -> Eq
-             | Zpos _ -> Lt
-             | Zneg _ -> Gt)
-    | Zpos x' -> (match y with
-                  | Zpos y' -> Pos.compare x' y'
-                  | _ -> Gt)
-    | Zneg x' ->
-      (match y with
-       | Zneg y' -> compOpp (Pos.compare x' y')
-       | _ -> Lt)
-
-  (** val leb : z -> z -> bool **)
-
-  let leb x y =
-    match compare x y with
-    | Gt -> false
-    | _ -> true
-
-  (** val ltb : z -> z -> bool **)
-
-  let ltb x y =
-    match compare x y with
-    | Lt -> true
-    | _ -> false
-
-  (** val geb : z -> z -> bool **)
-
-  let geb x y =
-    match compare x y with
-    | Lt -> false
-    | _ -> true
-
-  (** val gtb : z -> z -> bool **)
-
-  let gtb x y =
-    match compare x y with
-    | Gt -> true
-    | _ -> false
-
-  (** val eqb : z -> z -> bool **)
-
-  let eqb x y =
-    match x with
-    | Z0 -> (match y with
-             | Z0 -> true
-             | _ -> false)
-    | Zpos p -> (match y with
-                 | Zpos q -> Pos.eqb p q
-                 | _ -> false)
-    | Zneg p -> (match y with
-                 | Zneg q -> Pos.eqb p q
-                 | _ -> false)
-
   (** val to_nat : z -> nat **)
 
   let to_nat = function
-  | Zpos p -> Pos.to_nat p
+  | Zpos p -> Coq_Pos.to_nat p
   | _ -> O
 
   (** val to_N : z -> n **)
@@ -539,565 +513,436 @@ module Z =
 
   let of_nat = function
   | O -> Z0
-  | S n1 -> Zpos (Pos.of_succ_nat n1)
+  | S n1 -> Zpos (Coq_Pos.of_succ_nat n1)
 
   (** val of_N : n -> z **)
 
   let of_N = function
   | N0 -> Z0
   | Npos p -> Zpos p
-
-  (** val pos_div_eucl : positive -> z -> z * z **)
-
-  let rec pos_div_eucl a b =
-    match a with
-    | XI a' ->
-      let (q, r) = pos_div_eucl a' b in
-      let r' = add (mul (Zpos (XO XH)) r) (Zpos XH) in
-      if ltb r' b
-      then ((mul (Zpos (XO XH)) q), r')
-      else ((add (mul (Zpos (XO XH)) q) (Zpos XH)), (sub r' b))
-    | XO a' ->
-      let (q, r) = pos_div_eucl a' b in
-      let r' = mul (Zpos (XO XH)) r in
-      if ltb r' b
-      then ((mul (Zpos (XO XH)) q), r')
-      else ((add (mul (Zpos (XO XH)) q) (Zpos XH)), (sub r' b))
-    | XH -> if leb (Zpos (XO XH)) b then (Z0, (Zpos XH)) else ((Zpos XH), Z0)
-
-  (** val div_eucl : z -> z -> z * z **)
-
-  let div_eucl a b =
-    match a with
-    | Z0 -> (Z0, Z0)
-    | Zpos a' ->
-      (match b with
-       | Z0 -> (Z0, a)
-       | Zpos _ -> pos_div_eucl a' b
-       | Zneg b' ->
-         let (q, r) = pos_div_eucl a' (Zpos b') in
-         (match r with
-          | Z0 -> ((opp q), Z0)
-          | _ -> ((opp (add q (Zpos XH))), (add b r))))
-    | Zneg a' ->
-      (match b with
-       | Z0 -> (Z0, a)
-       | Zpos _ ->
-         let (q, r) = pos_div_eucl a' b in
-         (match r with
-          | Z0 -> ((opp q), Z0)
-          | _ -> ((opp (add q (Zpos XH))), (sub b r)))
-       | Zneg b' -> let (q, r) = pos_div_eucl a' (Zpos b') in (q, (opp r)))
-
-  (** val div : z -> z -> z **)
-
-  let div a b =
-    let (q, _) = div_eucl a b in q
-
-  (** val modulo : z -> z -> z **)
-
-  let modulo a b =
-    let (_, r) = div_eucl a b in r
-
-  (** val div2 : z -> z **)
-
-  let div2 = function
-  | Z0 -> Z0
-  | Zpos p -> (match p with
-               | XH -> Z0
-               | _ -> Zpos (Pos.div2 p))
-  | Zneg p -> Zneg (Pos.div2_up p)
-
-  (** val shiftl : z -> z -> z **)
-
-  let shiftl a = function
-  | Z0 -> a
-  | Zpos p -> Pos.iter (mul (Zpos (XO XH))) a p
-  | Zneg p -> Pos.iter div2 a p
-
-  (** val shiftr : z -> z -> z **)
-
-  let shiftr a n0 =
-    shiftl a (opp n0)
-
-  (** val coq_land : z -> z -> z **)
-
-  let coq_land a b =
-    match a with
-    | Z0 -> Z0
-    | Zpos a0 ->
-      (match b with
-       | Z0 -> Z0
-       | Zpos b0 -> of_N (Pos.coq_land a0 b0)
-       | Zneg b0 -> of_N (N.ldiff (Npos a0) (Pos.pred_N b0)))
-    | Zneg a0 ->
-      (match b with
-       | Z0 -> Z0
-       | Zpos b0 -> of_N (N.ldiff (Npos b0) (Pos.pred_N a0))
-       | Zneg b0 ->
-         Zneg (N.succ_pos (N.coq_lor (Pos.pred_N a0) (Pos.pred_N b0))))
  end
 
-(** val wrap32 : z -> z **)
+(** val nth_error : 'a1 list -> nat -> 'a1 option **)
 
-let wrap32 z0 =
-  Z.sub
-    (Z.modulo
-      (Z.add z0 (Zpos (XO (XO (XO (XO (XO (XO (XO (XO (XO (XO (XO (XO (XO (XO
-        (XO (XO (XO (XO (XO (XO (XO (XO (XO (XO (XO (XO (XO (XO (XO (XO (XO
-        XH))))))))))))))))))))))))))))))))) (Zpos (XO (XO (XO (XO (XO (XO (XO
-      (XO (XO (XO (XO (XO (XO (XO (XO (XO (XO (XO (XO (XO (XO (XO (XO (XO (XO
-      (XO (XO (XO (XO (XO (XO (XO XH)))))))))))))))))))))))))))))))))) (Zpos
+let rec nth_error l = function
+| O -> (match l with
+        | [] -> None
+        | x :: _ -> Some x)
+| S n1 -> (match l with
+           | [] -> None
+           | _ :: l0 -> nth_error l0 n1)
+
+(** val fold_left : ('a1 -> 'a2 -> 'a1) -> 'a2 list -> 'a1 -> 'a1 **)
+
+let rec fold_left f l a0 =
+  match l with
+  | [] -> a0
+  | b :: t -> fold_left f t (f a0 b)
+
+(** val repeat : 'a1 -> nat -> 'a1 list **)
+
+let rec repeat x = function
+| O -> []
+| S k -> x :: (repeat x k)
+
+(** val invalid_key : n **)
+
+let invalid_key =
+  N0
+
+(** val init_size : n **)
+
+let init_size =
+  Npos (XI (XO XH))
+
+(** val size_plus : n **)
+
+let size_plus =
+  Npos XH
+
+(** val mult_num : n **)
+
+let mult_num =
+  Npos (XO (XI (XI XH)))
+
+(** val mult_den : n **)
+
+let mult_den =
+  Npos (XO (XI (XO XH)))
+
+(** val thr_sub : n **)
+
+let thr_sub =
+  Npos XH
+
+(** val thr_num : n **)
+
+let thr_num =
+  Npos (XI (XI (XO (XI (XO (XO XH))))))
+
+(** val thr_den : n **)
+
+let thr_den =
+  Npos (XO (XO (XI (XO (XO (XI XH))))))
+
+(** val grow_factor : n **)
+
+let grow_factor =
+  Npos (XO XH)
+
+(** val mask_shl : n **)
+
+let mask_shl =
+  Npos XH
+
+(** val mask_or : n **)
+
+let mask_or =
+  Npos XH
+
+(** val round_shifts : n list **)
+
+let round_shifts =
+  (Npos XH) :: ((Npos (XO XH)) :: ((Npos (XO (XO XH))) :: ((Npos (XO (XO (XO
+    XH)))) :: ((Npos (XO (XO (XO (XO XH))))) :: ((Npos (XO (XO (XO (XO (XO
+    XH)))))) :: [])))))
+
+type 'a res =
+| Ok of 'a
+| ErrFuel
+| ErrBounds
+| ErrFull
+
+(** val bind : 'a1 res -> ('a1 -> 'a2 res) -> 'a2 res **)
+
+let bind r f =
+  match r with
+  | Ok a -> f a
+  | ErrFuel -> ErrFuel
+  | ErrBounds -> ErrBounds
+  | ErrFull -> ErrFull
+
+(** val invalid : n **)
+
+let invalid =
+  invalid_key
+
+(** val get : 'a1 list -> n -> 'a1 option **)
+
+let get l i =
+  nth_error l (N.to_nat i)
+
+(** val upd_nat : 'a1 list -> nat -> 'a1 -> 'a1 list **)
+
+let rec upd_nat l n0 x =
+  match l with
+  | [] -> []
+  | h :: t -> (match n0 with
+               | O -> x :: t
+               | S m -> h :: (upd_nat t m x))
+
+(** val upd : 'a1 list -> n -> 'a1 -> 'a1 list **)
+
+let upd l i x =
+  upd_nat l (N.to_nat i) x
+
+(** val two64 : n **)
+
+let two64 =
+  Npos (XO (XO (XO (XO (XO (XO (XO (XO (XO (XO (XO (XO (XO (XO (XO (XO (XO
     (XO (XO (XO (XO (XO (XO (XO (XO (XO (XO (XO (XO (XO (XO (XO (XO (XO (XO
-    (XO (XO (XO (XO (XO (XO (XO (XO (XO (XO (XO (XO (XO
-    XH))))))))))))))))))))))))))))))))
-
-(** val tABLE : z list **)
-
-let tABLE =
-  (Zpos (XI (XO (XO (XO (XO (XO XH))))))) :: ((Zpos (XO (XI (XO (XO (XO (XO
-    XH))))))) :: ((Zpos (XI (XI (XO (XO (XO (XO XH))))))) :: ((Zpos (XO (XO
-    (XI (XO (XO (XO XH))))))) :: ((Zpos (XI (XO (XI (XO (XO (XO
-    XH))))))) :: ((Zpos (XO (XI (XI (XO (XO (XO XH))))))) :: ((Zpos (XI (XI
-    (XI (XO (XO (XO XH))))))) :: ((Zpos (XO (XO (XO (XI (XO (XO
-    XH))))))) :: ((Zpos (XI (XO (XO (XI (XO (XO XH))))))) :: ((Zpos (XO (XI
-    (XO (XI (XO (XO XH))))))) :: ((Zpos (XI (XI (XO (XI (XO (XO
-    XH))))))) :: ((Zpos (XO (XO (XI (XI (XO (XO XH))))))) :: ((Zpos (XI (XO
-    (XI (XI (XO (XO XH))))))) :: ((Zpos (XO (XI (XI (XI (XO (XO
-    XH))))))) :: ((Zpos (XI (XI (XI (XI (XO (XO XH))))))) :: ((Zpos (XO (XO
-    (XO (XO (XI (XO XH))))))) :: ((Zpos (XI (XO (XO (XO (XI (XO
-    XH))))))) :: ((Zpos (XO (XI (XO (XO (XI (XO XH))))))) :: ((Zpos (XI (XI
-    (XO (XO (XI (XO XH))))))) :: ((Zpos (XO (XO (XI (XO (XI (XO
-    XH))))))) :: ((Zpos (XI (XO (XI (XO (XI (XO XH))))))) :: ((Zpos (XO (XI
-    (XI (XO (XI (XO XH))))))) :: ((Zpos (XI (XI (XI (XO (XI (XO
-    XH))))))) :: ((Zpos (XO (XO (XO (XI (XI (XO XH))))))) :: ((Zpos (XI (XO
-    (XO (XI (XI (XO XH))))))) :: ((Zpos (XO (XI (XO (XI (XI (XO
-    XH))))))) :: ((Zpos (XI (XO (XO (XO (XO (XI XH))))))) :: ((Zpos (XO (XI
-    (XO (XO (XO (XI XH))))))) :: ((Zpos (XI (XI (XO (XO (XO (XI
-    XH))))))) :: ((Zpos (XO (XO (XI (XO (XO (XI XH))))))) :: ((Zpos (XI (XO
-    (XI (XO (XO (XI XH))))))) :: ((Zpos (XO (XI (XI (XO (XO (XI
-    XH))))))) :: ((Zpos (XI (XI (XI (XO (XO (XI XH))))))) :: ((Zpos (XO (XO
-    (XO (XI (XO (XI XH))))))) :: ((Zpos (XI (XO (XO (XI (XO (XI
-    XH))))))) :: ((Zpos (XO (XI (XO (XI (XO (XI XH))))))) :: ((Zpos (XI (XI
-    (XO (XI (XO (XI XH))))))) :: ((Zpos (XO (XO (XI (XI (XO (XI
-    XH))))))) :: ((Zpos (XI (XO (XI (XI (XO (XI XH))))))) :: ((Zpos (XO (XI
-    (XI (XI (XO (XI XH))))))) :: ((Zpos (XI (XI (XI (XI (XO (XI
-    XH))))))) :: ((Zpos (XO (XO (XO (XO (XI (XI XH))))))) :: ((Zpos (XI (XO
-    (XO (XO (XI (XI XH))))))) :: ((Zpos (XO (XI (XO (XO (XI (XI
-    XH))))))) :: ((Zpos (XI (XI (XO (XO (XI (XI XH))))))) :: ((Zpos (XO (XO
-    (XI (XO (XI (XI XH))))))) :: ((Zpos (XI (XO (XI (XO (XI (XI
-    XH))))))) :: ((Zpos (XO (XI (XI (XO (XI (XI XH))))))) :: ((Zpos (XI (XI
-    (XI (XO (XI (XI XH))))))) :: ((Zpos (XO (XO (XO (XI (XI (XI
-    XH))))))) :: ((Zpos (XI (XO (XO (XI (XI (XI XH))))))) :: ((Zpos (XO (XI
-    (XO (XI (XI (XI XH))))))) :: ((Zpos (XO (XO (XO (XO (XI
-    XH)))))) :: ((Zpos (XI (XO (XO (XO (XI XH)))))) :: ((Zpos (XO (XI (XO (XO
-    (XI XH)))))) :: ((Zpos (XI (XI (XO (XO (XI XH)))))) :: ((Zpos (XO (XO (XI
-    (XO (XI XH)))))) :: ((Zpos (XI (XO (XI (XO (XI XH)))))) :: ((Zpos (XO (XI
-    (XI (XO (XI XH)))))) :: ((Zpos (XI (XI (XI (XO (XI XH)))))) :: ((Zpos (XO
-    (XO (XO (XI (XI XH)))))) :: ((Zpos (XI (XO (XO (XI (XI XH)))))) :: ((Zpos
-    (XI (XI (XO (XI (XO XH)))))) :: ((Zpos (XI (XI (XI (XI (XO
-    XH)))))) :: [])))))))))))))))))))))))))))))))))))))))))))))))))))))))))))))))
-
-(** val iNV_TABLE : z list **)
-
-let iNV_TABLE =
-  (Zneg XH) :: ((Zneg XH) :: ((Zneg XH) :: ((Zneg XH) :: ((Zneg XH) :: ((Zneg
-    XH) :: ((Zneg XH) :: ((Zneg XH) :: ((Zneg XH) :: ((Zneg XH) :: ((Zneg
-    XH) :: ((Zneg XH) :: ((Zneg XH) :: ((Zneg XH) :: ((Zneg XH) :: ((Zneg
-    XH) :: ((Zneg XH) :: ((Zneg XH) :: ((Zneg XH) :: ((Zneg XH) :: ((Zneg
-    XH) :: ((Zneg XH) :: ((Zneg XH) :: ((Zneg XH) :: ((Zneg XH) :: ((Zneg
-    XH) :: ((Zneg XH) :: ((Zneg XH) :: ((Zneg XH) :: ((Zneg XH) :: ((Zneg
-    XH) :: ((Zneg XH) :: ((Zneg XH) :: ((Zneg XH) :: ((Zneg XH) :: ((Zneg
-    XH) :: ((Zneg XH) :: ((Zneg XH) :: ((Zneg XH) :: ((Zneg XH) :: ((Zneg
-    XH) :: ((Zneg XH) :: ((Zneg XH) :: ((Zpos (XO (XI (XI (XI (XI
-    XH)))))) :: ((Zneg XH) :: ((Zneg XH) :: ((Zneg XH) :: ((Zpos (XI (XI (XI
-    (XI (XI XH)))))) :: ((Zpos (XO (XO (XI (XO (XI XH)))))) :: ((Zpos (XI (XO
-    (XI (XO (XI XH)))))) :: ((Zpos (XO (XI (XI (XO (XI XH)))))) :: ((Zpos (XI
-    (XI (XI (XO (XI XH)))))) :: ((Zpos (XO (XO (XO (XI (XI XH)))))) :: ((Zpos
-    (XI (XO (XO (XI (XI XH)))))) :: ((Zpos (XO (XI (XO (XI (XI
-    XH)))))) :: ((Zpos (XI (XI (XO (XI (XI XH)))))) :: ((Zpos (XO (XO (XI (XI
-    (XI XH)))))) :: ((Zpos (XI (XO (XI (XI (XI XH)))))) :: ((Zneg
-    XH) :: ((Zneg XH) :: ((Zneg XH) :: ((Zneg XH) :: ((Zneg XH) :: ((Zneg
-    XH) :: ((Zneg XH) :: (Z0 :: ((Zpos XH) :: ((Zpos (XO XH)) :: ((Zpos (XI
-    XH)) :: ((Zpos (XO (XO XH))) :: ((Zpos (XI (XO XH))) :: ((Zpos (XO (XI
-    XH))) :: ((Zpos (XI (XI XH))) :: ((Zpos (XO (XO (XO XH)))) :: ((Zpos (XI
-    (XO (XO XH)))) :: ((Zpos (XO (XI (XO XH)))) :: ((Zpos (XI (XI (XO
-    XH)))) :: ((Zpos (XO (XO (XI XH)))) :: ((Zpos (XI (XO (XI
-    XH)))) :: ((Zpos (XO (XI (XI XH)))) :: ((Zpos (XI (XI (XI
-    XH)))) :: ((Zpos (XO (XO (XO (XO XH))))) :: ((Zpos (XI (XO (XO (XO
-    XH))))) :: ((Zpos (XO (XI (XO (XO XH))))) :: ((Zpos (XI (XI (XO (XO
-    XH))))) :: ((Zpos (XO (XO (XI (XO XH))))) :: ((Zpos (XI (XO (XI (XO
-    XH))))) :: ((Zpos (XO (XI (XI (XO XH))))) :: ((Zpos (XI (XI (XI (XO
-    XH))))) :: ((Zpos (XO (XO (XO (XI XH))))) :: ((Zpos (XI (XO (XO (XI
-    XH))))) :: ((Zneg XH) :: ((Zneg XH) :: ((Zneg XH) :: ((Zneg XH) :: ((Zneg
-    XH) :: ((Zneg XH) :: ((Zpos (XO (XI (XO (XI XH))))) :: ((Zpos (XI (XI (XO
-    (XI XH))))) :: ((Zpos (XO (XO (XI (XI XH))))) :: ((Zpos (XI (XO (XI (XI
-    XH))))) :: ((Zpos (XO (XI (XI (XI XH))))) :: ((Zpos (XI (XI (XI (XI
-    XH))))) :: ((Zpos (XO (XO (XO (XO (XO XH)))))) :: ((Zpos (XI (XO (XO (XO
-    (XO XH)))))) :: ((Zpos (XO (XI (XO (XO (XO XH)))))) :: ((Zpos (XI (XI (XO
-    (XO (XO XH)))))) :: ((Zpos (XO (XO (XI (XO (XO XH)))))) :: ((Zpos (XI (XO
-    (XI (XO (XO XH)))))) :: ((Zpos (XO (XI (XI (XO (XO XH)))))) :: ((Zpos (XI
-    (XI (XI (XO (XO XH)))))) :: ((Zpos (XO (XO (XO (XI (XO XH)))))) :: ((Zpos
-    (XI (XO (XO (XI (XO XH)))))) :: ((Zpos (XO (XI (XO (XI (XO
-    XH)))))) :: ((Zpos (XI (XI (XO (XI (XO XH)))))) :: ((Zpos (XO (XO (XI (XI
-    (XO XH)))))) :: ((Zpos (XI (XO (XI (XI (XO XH)))))) :: ((Zpos (XO (XI (XI
-    (XI (XO XH)))))) :: ((Zpos (XI (XI (XI (XI (XO XH)))))) :: ((Zpos (XO (XO
-    (XO (XO (XI XH)))))) :: ((Zpos (XI (XO (XO (XO (XI XH)))))) :: ((Zpos (XO
-    (XI (XO (XO (XI XH)))))) :: ((Zpos (XI (XI (XO (XO (XI XH)))))) :: ((Zneg
-    XH) :: ((Zneg XH) :: ((Zneg XH) :: ((Zneg XH) :: ((Zneg XH) :: ((Zneg
-    XH) :: ((Zneg XH) :: ((Zneg XH) :: ((Zneg XH) :: ((Zneg XH) :: ((Zneg
-    XH) :: ((Zneg XH) :: ((Zneg XH) :: ((Zneg XH) :: ((Zneg XH) :: ((Zneg
-    XH) :: ((Zneg XH) :: ((Zneg XH) :: ((Zneg XH) :: ((Zneg XH) :: ((Zneg
-    XH) :: ((Zneg XH) :: ((Zneg XH) :: ((Zneg XH) :: ((Zneg XH) :: ((Zneg
-    XH) :: ((Zneg XH) :: ((Zneg XH) :: ((Zneg XH) :: ((Zneg XH) :: ((Zneg
-    XH) :: ((Zneg XH) :: ((Zneg XH) :: ((Zneg XH) :: ((Zneg XH) :: ((Zneg
-    XH) :: ((Zneg XH) :: ((Zneg XH) :: ((Zneg XH) :: ((Zneg XH) :: ((Zneg
-    XH) :: ((Zneg XH) :: ((Zneg XH) :: ((Zneg XH) :: ((Zneg XH) :: ((Zneg
-    XH) :: ((Zneg XH) :: ((Zneg XH) :: ((Zneg XH) :: ((Zneg XH) :: ((Zneg
-    XH) :: ((Zneg XH) :: ((Zneg XH) :: ((Zneg XH) :: ((Zneg XH) :: ((Zneg
-    XH) :: ((Zneg XH) :: ((Zneg XH) :: ((Zneg XH) :: ((Zneg XH) :: ((Zneg
-    XH) :: ((Zneg XH) :: ((Zneg XH) :: ((Zneg XH) :: ((Zneg XH) :: ((Zneg
-    XH) :: ((Zneg XH) :: ((Zneg XH) :: ((Zneg XH) :: ((Zneg XH) :: ((Zneg
-    XH) :: ((Zneg XH) :: ((Zneg XH) :: ((Zneg XH) :: ((Zneg XH) :: ((Zneg
-    XH) :: ((Zneg XH) :: ((Zneg XH) :: ((Zneg XH) :: ((Zneg XH) :: ((Zneg
-    XH) :: ((Zneg XH) :: ((Zneg XH) :: ((Zneg XH) :: ((Zneg XH) :: ((Zneg
-    XH) :: ((Zneg XH) :: ((Zneg XH) :: ((Zneg XH) :: ((Zneg XH) :: ((Zneg
-    XH) :: ((Zneg XH) :: ((Zneg XH) :: ((Zneg XH) :: ((Zneg XH) :: ((Zneg
-    XH) :: ((Zneg XH) :: ((Zneg XH) :: ((Zneg XH) :: ((Zneg XH) :: ((Zneg
-    XH) :: ((Zneg XH) :: ((Zneg XH) :: ((Zneg XH) :: ((Zneg XH) :: ((Zneg
-    XH) :: ((Zneg XH) :: ((Zneg XH) :: ((Zneg XH) :: ((Zneg XH) :: ((Zneg
-    XH) :: ((Zneg XH) :: ((Zneg XH) :: ((Zneg XH) :: ((Zneg XH) :: ((Zneg
-    XH) :: ((Zneg XH) :: ((Zneg XH) :: ((Zneg XH) :: ((Zneg XH) :: ((Zneg
-    XH) :: ((Zneg XH) :: ((Zneg XH) :: ((Zneg XH) :: ((Zneg XH) :: ((Zneg
-    XH) :: ((Zneg XH) :: ((Zneg XH) :: ((Zneg XH) :: ((Zneg XH) :: ((Zneg
-    XH) :: ((Zneg XH) :: ((Zneg
-    XH) :: [])))))))))))))))))))))))))))))))))))))))))))))))))))))))))))))))))))))))))))))))))))))))))))))))))))))))))))))))))))))))))))))))))))))))))))))))))))))))))))))))))))))))))))))))))))))))))))))))))))))))))))))))))))))))))))))))))))))))))))))))))))))))))))))))
+    (XO (XO (XO (XO (XO (XO (XO (XO (XO (XO (XO (XO (XO (XO (XO (XO (XO (XO
+    (XO (XO (XO (XO (XO (XO (XO (XO (XO (XO (XO
+    XH))))))))))))))))))))))))))))))))))))))))))))))))))))))))))))))))
+
+(** val round_buckets : n -> n **)
+
+let round_buckets from =
+  let f0 = N.modulo (N.sub (N.add from two64) (Npos XH)) two64 in
+  N.modulo
+    (N.add
+      (fold_left (fun f s -> N.coq_lor f (N.shiftr f s)) round_shifts f0)
+      (Npos XH)) two64
 
-(** val enc_val0 : z **)
-
-let enc_val0 =
-  Z0
-
-(** val enc_valb0 : z **)
-
-let enc_valb0 =
-  Zneg (XO (XI XH))
-
-(** val enc_shift : z **)
-
-let enc_shift =
-  Zpos (XO (XO (XO XH)))
-
-(** val enc_valb_add : z **)
-
-let enc_valb_add =
-  Zpos (XO (XO (XO XH)))
-
-(** val enc_loop_bound : z **)
-
-let enc_loop_bound =
-  Z0
-
-(** val enc_mask : z **)
-
-let enc_mask =
-  Zpos (XI (XI (XI (XI (XI XH)))))
-
-(** val enc_valb_sub : z **)
-
-let enc_valb_sub =
-  Zpos (XO (XI XH))
-
-(** val enc_tail_bound : z **)
-
-let enc_tail_bound =
-  Zneg (XO (XI XH))
-
-(** val enc_tail_shl : z **)
-
-let enc_tail_shl =
-  Zpos (XO (XO (XO XH)))
-
-(** val enc_tail_add : z **)
-
-let enc_tail_add =
-  Zpos (XO (XO (XO XH)))
-
-(** val enc_tail_mask : z **)
-
-let enc_tail_mask =
-  Zpos (XI (XI (XI (XI (XI XH)))))
-
-(** val enc_pad_mod : z **)
-
-let enc_pad_mod =
-  Zpos (XO (XO XH))
-
-(** val pad_char : z **)
-
-let pad_char =
-  Zpos (XI (XO (XI (XI (XI XH)))))
-
-(** val dec_val0 : z **)
-
-let dec_val0 =
-  Z0
-
-(** val dec_valb0 : z **)
-
-let dec_valb0 =
-  Zneg (XO (XO (XO XH)))
-
-(** val dec_pad_char : z **)
-
-let dec_pad_char =
-  Zpos (XI (XO (XI (XI (XI XH)))))
-
-(** val dec_reject : z **)
-
-let dec_reject =
-  Zneg XH
-
-(** val dec_shift : z **)
-
-let dec_shift =
-  Zpos (XO (XI XH))
-
-(** val dec_valb_add : z **)
-
-let dec_valb_add =
-  Zpos (XO (XI XH))
-
-(** val dec_out_bound : z **)
-
-let dec_out_bound =
-  Z0
-
-(** val dec_mask : z **)
-
-let dec_mask =
-  Zpos (XI (XI (XI (XI (XI (XI (XI XH)))))))
-
-(** val dec_valb_sub : z **)
-
-let dec_valb_sub =
-  Zpos (XO (XO (XO XH)))
-
-(** val tbl : z -> z **)
-
-let tbl i =
-  nth (Z.to_nat i) tABLE Z0
-
-(** val inv : z -> z **)
-
-let inv c =
-  nth (Z.to_nat c) iNV_TABLE Z0
-
-(** val sel : z -> z -> z -> z **)
-
-let sel val0 valb mask =
-  Z.coq_land (Z.shiftr val0 valb) mask
-
-(** val enc_drain : nat -> z -> z -> (z list * z) option **)
-
-let rec enc_drain fuel val0 valb =
-  if Z.geb valb enc_loop_bound
-  then (match fuel with
-        | O -> None
-        | S f ->
-          (match enc_drain f val0 (Z.sub valb enc_valb_sub) with
-           | Some p ->
-             let (o, vb) = p in
-             Some (((tbl (sel val0 valb enc_mask)) :: o), vb)
-           | None -> None))
-  else Some ([], valb)
-
-(** val drain_fuel : nat **)
-
-let drain_fuel =
-  S (S (S (S (S (S (S (S O)))))))
-
-(** val enc_bytes : z list -> z -> z -> ((z list * z) * z) option **)
-
-let rec enc_bytes bs val0 valb =
-  match bs with
-  | [] -> Some (([], val0), valb)
-  | c :: r ->
-    let val' = wrap32 (Z.add (Z.mul val0 (Z.pow (Zpos (XO XH)) enc_shift)) c)
-    in
-    (match enc_drain drain_fuel val' (Z.add valb enc_valb_add) with
-     | Some p ->
-       let (o, vb) = p in
-       (match enc_bytes r val' vb with
-        | Some p0 ->
-          let (p1, b) = p0 in let (o2, v) = p1 in Some (((app o o2), v), b)
-        | None -> None)
-     | None -> None)
-
-(** val enc_pad : nat -> z list **)
-
-let enc_pad n0 =
-  repeat pad_char
-    (Z.to_nat
-      (Z.modulo (Z.sub enc_pad_mod (Z.modulo (Z.of_nat n0) enc_pad_mod))
-        enc_pad_mod))
-
-(** val base64_encode : z list -> z list option **)
-
-let base64_encode bs =
-  match enc_bytes bs enc_val0 enc_valb0 with
-  | Some p ->
-    let (p0, valb) = p in
-    let (o, val0) = p0 in
-    let o' =
-      if Z.gtb valb enc_tail_bound
-      then app o
-             ((tbl
-                (sel
-                  (wrap32 (Z.mul val0 (Z.pow (Zpos (XO XH)) enc_tail_shl)))
-                  (Z.add valb enc_tail_add) enc_tail_mask)) :: [])
-      else o
-    in
-    Some (app o' (enc_pad (length o')))
+(** val mask_double : n -> n **)
+
+let mask_double mask1 =
+  N.coq_lor (N.shiftl mask1 mask_shl) mask_or
+
+type 'v entry = n * 'v
+
+(** val ekey : 'a1 entry -> n **)
+
+let ekey =
+  fst
+
+(** val set_key : 'a1 entry -> n -> 'a1 entry **)
+
+let set_key e k =
+  (k, (snd e))
+
+type 'v ptable = { cells : 'v entry list; nbuckets : n; mask0 : n; entries : n }
+
+(** val ideal : (n -> n) -> n -> n -> n **)
+
+let ideal hash mask1 k =
+  N.coq_land (hash k) mask1
+
+(** val next : n -> n -> n **)
+
+let next mask1 i =
+  N.coq_land (N.add i (Npos XH)) mask1
+
+(** val find_loop : nat -> 'a1 entry list -> n -> n -> n -> n option res **)
+
+let rec find_loop fuel cs mask1 i k =
+  match fuel with
+  | O -> ErrFuel
+  | S f ->
+    (match get cs i with
+     | Some e ->
+       if N.eqb (ekey e) k
+       then Ok (Some i)
+       else if N.eqb (ekey e) invalid
+            then Ok None
+            else find_loop f cs mask1 (next mask1 i) k
+     | None -> ErrBounds)
+
+(** val find : (n -> n) -> 'a1 ptable -> n -> n option res **)
+
+let find hash t k =
+  find_loop (length t.cells) t.cells t.mask0 (ideal hash t.mask0 k) k
+
+(** val foi_loop :
+    nat -> 'a1 ptable -> n -> 'a1 entry -> ((bool * n) * 'a1 ptable) res **)
+
+let rec foi_loop fuel t i e =
+  match fuel with
+  | O -> ErrFuel
+  | S f ->
+    (match get t.cells i with
+     | Some got ->
+       if N.eqb (ekey got) (ekey e)
+       then Ok ((true, i), t)
+       else if N.eqb (ekey got) invalid
+            then let entries' = N.add t.entries (Npos XH) in
+                 if N.leb t.nbuckets entries'
+                 then ErrFull
+                 else Ok ((false, i), { cells = (upd t.cells i e); nbuckets =
+                        t.nbuckets; mask0 = t.mask0; entries = entries' })
+            else foi_loop f t (next t.mask0 i) e
+     | None -> ErrBounds)
+
+(** val find_or_insert :
+    (n -> n) -> 'a1 ptable -> 'a1 entry -> ((bool * n) * 'a1 ptable) res **)
+
+let find_or_insert hash t e =
+  foi_loop (length t.cells) t (ideal hash t.mask0 (ekey e)) e
+
+(** val ui_loop :
+    nat -> 'a1 entry list -> n -> n -> 'a1 entry -> ('a1 entry list * n) res **)
+
+let rec ui_loop fuel cs mask1 i e =
+  match fuel with
+  | O -> ErrFuel
+  | S f ->
+    (match get cs i with
+     | Some got ->
+       if N.eqb (ekey got) invalid
+       then Ok ((upd cs i e), i)
+       else ui_loop f cs mask1 (next mask1 i) e
+     | None -> ErrBounds)
+
+(** val unchecked_insert :
+    (n -> n) -> 'a1 entry list -> n -> 'a1 entry -> ('a1 entry list * n) res **)
+
+let unchecked_insert hash cs mask1 e =
+  ui_loop (length cs) cs mask1 (ideal hash mask1 (ekey e)) e
+
+(** val park_loop :
+    nat -> 'a1 entry list -> n -> 'a1 entry list -> ('a1 entry list * 'a1
+    entry list) res **)
+
+let rec park_loop n0 cs i rolled =
+  match n0 with
+  | O -> Ok (cs, rolled)
+  | S n' ->
+    (match get cs i with
+     | Some e ->
+       if N.eqb (ekey e) invalid
+       then Ok (cs, rolled)
+       else park_loop n' (upd cs i (set_key e invalid)) (N.add i (Npos XH))
+              (app rolled (e :: []))
+     | None -> ErrBounds)
+
+(** val reinsert_loop :
+    (n -> n) -> nat -> 'a1 entry list -> n -> n -> 'a1 entry list res **)
+
+let rec reinsert_loop hash n0 cs mask1 i =
+  match n0 with
+  | O -> Ok cs
+  | S n' ->
+    (match get cs i with
+     | Some e ->
+       if N.eqb (ekey e) invalid
+       then reinsert_loop hash n' cs mask1 (N.add i (Npos XH))
+       else bind
+              (unchecked_insert hash (upd cs i (set_key e invalid)) mask1 e)
+              (fun r ->
+              reinsert_loop hash n' (fst r) mask1 (N.add i (Npos XH)))
+     | None -> ErrBounds)
+
+(** val unpark_loop :
+    (n -> n) -> 'a1 entry list -> 'a1 entry list -> n -> 'a1 entry list res **)
+
+let rec unpark_loop hash rolled cs mask1 =
+  match rolled with
+  | [] -> Ok cs
+  | e :: r ->
+    bind (unchecked_insert hash cs mask1 e) (fun x ->
+      unpark_loop hash r (fst x) mask1)
+
+(** val double0 : 'a1 -> (n -> n) -> 'a1 ptable -> 'a1 ptable res **)
+
+let double0 v0 hash t =
+  let old_end = t.nbuckets in
+  let nb' = N.mul t.nbuckets grow_factor in
+  let mask' = mask_double t.mask0 in
+  let cs0 = app t.cells (repeat (invalid, v0) (N.to_nat (N.sub nb' old_end)))
+  in
+  bind (park_loop (N.to_nat old_end) cs0 N0 []) (fun pr ->
+    bind (reinsert_loop hash (N.to_nat old_end) (fst pr) mask' N0)
+      (fun cs2 ->
+      bind (unpark_loop hash (snd pr) cs2 mask') (fun cs3 -> Ok { cells =
+        cs3; nbuckets = nb'; mask0 = mask'; entries = t.entries })))
+
+type 'v auto = { backend : 'v ptable; threshold : n }
+
+(** val threshold_of : n -> n **)
+
+let threshold_of nb =
+  N.min (N.sub nb thr_sub) (N.div (N.mul nb thr_num) thr_den)
+
+(** val initial_buckets : n -> n **)
+
+let initial_buckets n0 =
+  round_buckets
+    (N.max (N.add n0 size_plus) (N.div (N.mul n0 mult_num) mult_den))
+
+(** val auto_init_n : 'a1 -> n -> 'a1 auto **)
+
+let auto_init_n v0 n0 =
+  let nb = initial_buckets n0 in
+  { backend = { cells = (repeat (invalid, v0) (N.to_nat nb)); nbuckets = nb;
+  mask0 = (N.sub nb (Npos XH)); entries = N0 }; threshold =
+  (threshold_of nb) }
+
+(** val auto_init : 'a1 -> 'a1 auto **)
+
+let auto_init v0 =
+  auto_init_n v0 init_size
+
+(** val auto_size : 'a1 auto -> n **)
+
+let auto_size a =
+  a.backend.entries
+
+(** val double_if_needed : 'a1 -> (n -> n) -> 'a1 auto -> 'a1 auto res **)
+
+let double_if_needed v0 hash a =
+  if N.ltb (auto_size a) a.threshold
+  then Ok a
+  else bind (double0 v0 hash a.backend) (fun t' -> Ok { backend = t';
+         threshold = (threshold_of t'.nbuckets) })
+
+(** val auto_find_or_insert :
+    'a1 -> (n -> n) -> 'a1 auto -> 'a1 entry -> ((bool * n) * 'a1 auto) res **)
+
+let auto_find_or_insert v0 hash a e =
+  bind (double_if_needed v0 hash a) (fun a1 ->
+    bind (find_or_insert hash a1.backend e) (fun r ->
+      let (p, t') = r in
+      let (found, pos) = p in
+      Ok ((found, pos), { backend = t'; threshold = a1.threshold })))
+
+(** val auto_insert :
+    'a1 -> (n -> n) -> 'a1 auto -> 'a1 entry -> (n * 'a1 auto) res **)
+
+let auto_insert v0 hash a e =
+  let t = a.backend in
+  let a0 = { backend = { cells = t.cells; nbuckets = t.nbuckets; mask0 =
+    t.mask0; entries = (N.add t.entries (Npos XH)) }; threshold =
+    a.threshold }
+  in
+  bind (double_if_needed v0 hash a0) (fun a1 ->
+    let t1 = a1.backend in
+    bind (unchecked_insert hash t1.cells t1.mask0 e) (fun r -> Ok ((snd r),
+      { backend = { cells = (fst r); nbuckets = t1.nbuckets; mask0 =
+      t1.mask0; entries = t1.entries }; threshold = a1.threshold })))
+
+(** val auto_find : (n -> n) -> 'a1 auto -> n -> n option res **)
+
+let auto_find hash a k =
+  find hash a.backend k
+
+(** val value_at : 'a1 auto -> n -> 'a1 option **)
+
+let value_at a i =
+  match get a.backend.cells i with
+  | Some e -> Some (snd e)
   | None -> None
 
-type dres =
-| DOk of z list
-| DBadChar of z
-| DLengthError
+(** val auto_update :
+    (n -> n) -> 'a1 auto -> n -> 'a1 -> (n option * 'a1 auto) res **)
 
-(** val count_padding_rev : z list -> nat **)
+let auto_update hash a k v =
+  bind (auto_find hash a k) (fun r ->
+    match r with
+    | Some i ->
+      let t = a.backend in
+      Ok ((Some i), { backend = { cells = (upd t.cells i (k, v)); nbuckets =
+      t.nbuckets; mask0 = t.mask0; entries = t.entries }; threshold =
+      a.threshold })
+    | None -> Ok (None, a))
 
-let rec count_padding_rev = function
-| [] -> O
-| c :: r' ->
-  if Z.eqb c (Zpos (XI (XO (XI (XI (XI XH))))))
-  then S (count_padding_rev r')
-  else O
+type 'v op =
+| OpFindOrInsert of n * 'v
+| OpInsert of n * 'v
+| OpFind of n
+| OpUpdate of n * 'v
 
-(** val count_padding : z list -> nat **)
+type 'v answer =
+| AFoundOrInserted of bool * n * 'v option
+| AInserted of n
+| AFind of (n * 'v option) option
+| AUpdate of n option
 
-let count_padding cs =
-  count_padding_rev (rev cs)
+(** val step :
+    'a1 -> (n -> n) -> 'a1 auto -> 'a1 op -> ('a1 answer * 'a1 auto) res **)
 
-(** val dec_loop : z list -> z -> z -> dres **)
+let step v0 hash a = function
+| OpFindOrInsert (k, v) ->
+  bind (auto_find_or_insert v0 hash a (k, v)) (fun r ->
+    let (p, a') = r in
+    let (found, pos) = p in
+    Ok ((AFoundOrInserted (found, pos, (value_at a' pos))), a'))
+| OpInsert (k, v) ->
+  bind (auto_insert v0 hash a (k, v)) (fun r -> Ok ((AInserted (fst r)),
+    (snd r)))
+| OpFind k ->
+  bind (auto_find hash a k) (fun r -> Ok ((AFind
+    (match r with
+     | Some i -> Some (i, (value_at a i))
+     | None -> None)), a))
+| OpUpdate (k, v) ->
+  bind (auto_update hash a k v) (fun r -> Ok ((AUpdate (fst r)), (snd r)))
 
-let rec dec_loop cs val0 valb =
-  match cs with
-  | [] -> DOk []
-  | c :: r ->
-    if Z.eqb c dec_pad_char
-    then DOk []
-    else if Z.eqb (inv c) dec_reject
-         then DBadChar c
-         else let val' =
-                wrap32
-                  (Z.add (Z.mul val0 (Z.pow (Zpos (XO XH)) dec_shift))
-                    (inv c))
-              in
-              let valb' = Z.add valb dec_valb_add in
-              if Z.geb valb' dec_out_bound
-              then (match dec_loop r val' (Z.sub valb' dec_valb_sub) with
-                    | DOk o -> DOk ((sel val' valb' dec_mask) :: o)
-                    | x -> x)
-              else dec_loop r val' valb'
+(** val run :
+    'a1 -> (n -> n) -> 'a1 auto -> 'a1 op list -> ('a1 answer list * 'a1
+    auto) res **)
 
-(** val base64_decode : z list -> dres **)
-
-let base64_decode cs =
-  if Z.ltb
-       (Z.div (Z.mul (Z.of_nat (length cs)) (Zpos (XI XH))) (Zpos (XO (XO
-         XH)))) (Z.of_nat (count_padding cs))
-  then DLengthError
-  else dec_loop cs dec_val0 dec_valb0
-
-(** val b64_alphabet : z list **)
-
-let b64_alphabet =
-  map Z.of_nat
-    (app
-      (seq (S (S (S (S (S (S (S (S (S (S (S (S (S (S (S (S (S (S (S (S (S (S
-        (S (S (S (S (S (S (S (S (S (S (S (S (S (S (S (S (S (S (S (S (S (S (S
-        (S (S (S (S (S (S (S (S (S (S (S (S (S (S (S (S (S (S (S (S
-        O))))))))))))))))))))))))))))))))))))))))))))))))))))))))))))))))) (S
-        (S (S (S (S (S (S (S (S (S (S (S (S (S (S (S (S (S (S (S (S (S (S (S
-        (S (S O)))))))))))))))))))))))))))
-      (app
-        (seq (S (S (S (S (S (S (S (S (S (S (S (S (S (S (S (S (S (S (S (S (S
-          (S (S (S (S (S (S (S (S (S (S (S (S (S (S (S (S (S (S (S (S (S (S
-          (S (S (S (S (S (S (S (S (S (S (S (S (S (S (S (S (S (S (S (S (S (S
-          (S (S (S (S (S (S (S (S (S (S (S (S (S (S (S (S (S (S (S (S (S (S
-          (S (S (S (S (S (S (S (S (S (S
-          O)))))))))))))))))))))))))))))))))))))))))))))))))))))))))))))))))))))))))))))))))))))))))))))))))
-          (S (S (S (S (S (S (S (S (S (S (S (S (S (S (S (S (S (S (S (S (S (S
-          (S (S (S (S O)))))))))))))))))))))))))))
-        (app
-          (seq (S (S (S (S (S (S (S (S (S (S (S (S (S (S (S (S (S (S (S (S (S
-            (S (S (S (S (S (S (S (S (S (S (S (S (S (S (S (S (S (S (S (S (S (S
-            (S (S (S (S (S O))))))))))))))))))))))))))))))))))))))))))))))))
-            (S (S (S (S (S (S (S (S (S (S O))))))))))) ((S (S (S (S (S (S (S
-          (S (S (S (S (S (S (S (S (S (S (S (S (S (S (S (S (S (S (S (S (S (S
-          (S (S (S (S (S (S (S (S (S (S (S (S (S (S
-          O))))))))))))))))))))))))))))))))))))))))))) :: ((S (S (S (S (S (S
-          (S (S (S (S (S (S (S (S (S (S (S (S (S (S (S (S (S (S (S (S (S (S
-          (S (S (S (S (S (S (S (S (S (S (S (S (S (S (S (S (S (S (S
-          O))))))))))))))))))))))))))))))))))))))))))))))) :: [])))))
-
-(** val alpha : z -> z **)
-
-let alpha i =
-  nth (Z.to_nat i) b64_alphabet Z0
-
-(** val rfc4648 : z list -> z list **)
-
-let rec rfc4648 = function
-| [] -> []
-| b0 :: l ->
-  (match l with
-   | [] ->
-     (alpha (Z.div b0 (Zpos (XO (XO XH))))) :: ((alpha
-                                                  (Z.mul
-                                                    (Z.modulo b0 (Zpos (XO
-                                                      (XO XH)))) (Zpos (XO
-                                                    (XO (XO (XO XH))))))) :: ((Zpos
-       (XI (XO (XI (XI (XI XH)))))) :: ((Zpos (XI (XO (XI (XI (XI
-       XH)))))) :: [])))
-   | b1 :: l0 ->
-     (match l0 with
-      | [] ->
-        (alpha (Z.div b0 (Zpos (XO (XO XH))))) :: ((alpha
-                                                     (Z.add
-                                                       (Z.mul
-                                                         (Z.modulo b0 (Zpos
-                                                           (XO (XO XH))))
-                                                         (Zpos (XO (XO (XO
-                                                         (XO XH))))))
-                                                       (Z.div b1 (Zpos (XO
-                                                         (XO (XO (XO XH)))))))) :: (
-          (alpha
-            (Z.mul (Z.modulo b1 (Zpos (XO (XO (XO (XO XH)))))) (Zpos (XO (XO
-              XH))))) :: ((Zpos (XI (XO (XI (XI (XI XH)))))) :: [])))
-      | b2 :: r ->
-        app
-          ((alpha (Z.div b0 (Zpos (XO (XO XH))))) :: ((alpha
-                                                        (Z.add
-                                                          (Z.mul
-                                                            (Z.modulo b0
-                                                              (Zpos (XO (XO
-                                                              XH)))) (Zpos
-                                                            (XO (XO (XO (XO
-                                                            XH))))))
-                                                          (Z.div b1 (Zpos (XO
-                                                            (XO (XO (XO
-                                                            XH)))))))) :: (
-          (alpha
-            (Z.add
-              (Z.mul (Z.modulo b1 (Zpos (XO (XO (XO (XO XH)))))) (Zpos (XO
-                (XO XH)))) (Z.div b2 (Zpos (XO (XO (XO (XO (XO (XO XH)))))))))) :: (
-          (alpha (Z.modulo b2 (Zpos (XO (XO (XO (XO (XO (XO XH))))))))) :: []))))
-          (rfc4648 r)))
-
-(** val strip_padding : z list -> z list **)
-
-let strip_padding cs =
-  rev (skipn (count_padding cs) (rev cs))
+let rec run v0 hash a = function
+| [] -> Ok ([], a)
+| o :: r ->
+  bind (step v0 hash a o) (fun x ->
+    bind (run v0 hash (snd x) r) (fun y -> Ok (((fst x) :: (fst y)), (snd y))))
